@@ -306,7 +306,7 @@ func lexText(l *lexer) stateFn {
 		// without breaking the API, this seems like a reasonable workaround to correctly parse comments
 		i := strings.IndexByte(l.input[l.pos:], l.leftDelim[0])  // index of suspected left delimiter
 		ic := strings.IndexByte(l.input[l.pos:], l.leftComment[0]) // index of suspected left comment marker
-		if ic > -1 && ic < i {                                   // use whichever is lower for future lexing
+		if ic > -1 && (i == -1 || ic < i) {                      // use whichever is lower for future lexing
 			i = ic
 		}
 		// if no token is found, skip till the end of template
